@@ -1,10 +1,13 @@
 /-
 M13 (concurrency part): `FromFrontend.save_method` (openpectus/aggregator/aggregator.py), reached from the route
-`POST /process_unit/{unit_id}/method` (`routers/process_unit.py: save_method`).
+`POST /process_unit/{unit_id}/method` (`routers/process_unit.py: save_method`), together with what else changes the
+method version of an engine: `FromEngine.engine_disconnected` / `register_engine_data` (the engine data, and with it
+the method, is dropped on disconnect and created anew on re-registration).
 
 Python, one request (asyncio task):
+    engine_data = get_registered_engine_data_or_fail(...)                       -- route: 404 if the engine is not registered
     [async with <per-engine lock>:]                      -- only in the system `locked = true`
-        existing = engine_data.method.version
+        existing = engine_data_map[engine_id].method.version                    -- KeyError if the engine went away meanwhile
         if existing != method.version: raise AggregatorCallerException          -- the version CHECK  (→ rejected)
         new_method = copy(method); new_method.version += 1                      -- = base + 1
         response = await dispatcher.rpc_call(engine_id, MethodMsg(new_method))  -- the ROUND TRIP (suspension point)
@@ -13,16 +16,24 @@ Python, one request (asyncio task):
         return new_method.version                                               -- (→ accepted)
 
 asyncio runs a task without interruption between two awaits, so the atomic steps are
-  `start`  : a request enters and runs until it blocks (on the lock, or in the round trip) or is rejected;
-  `reply`  : the engine's answer to one pending round trip arrives; the task runs to its end; with the lock, the lock
-             is released and handed to the waiters in FIFO order (`asyncio.Lock`), each of which runs until it blocks in
-             its own round trip or is rejected.
-Which of the two systems the code is, is read from the source by harness/translators/save_lock.py
-(`OPM.Gen.SaveLock.lockAcrossAwait`) and validated by running the real handler under every interleaving (props/C31.py).
+  `start`      : a request enters and runs until it blocks (on the lock, or in the round trip) or is refused;
+  `reply`      : the engine's answer to one pending round trip arrives; the task runs to its end; with the lock, the
+                 lock is released and handed to the waiters in FIFO order (`asyncio.Lock`), each of which runs until it
+                 blocks in its own round trip or is refused;
+  `disconnect` : the engine's connection drops: its engine data is deleted; a round trip that was in flight can no
+                 longer succeed (it ends with an error, possibly after the engine is back);
+  `register`   : the engine registers again: fresh engine data.  `resetOnRegister = true`: its method is
+                 `Method.empty()` at version 0 — the code before fixes/C31-version-survives-reregistration.diff;
+                 `resetOnRegister = false`: the version continues one above the last version the engine had.
+Which system the code is (`Cfg`) is measured on the real handler by the harness on every run (two probes); the AST
+translator harness/translators/save_lock.py independently says whether one lock spans check, round trip and commit
+(`OPM.Gen.SaveLock.lockAcrossAwait`, used by the theorem `code_holds_lock`).
 
-Abstractions: one engine (the lock and the version are per engine id); a request is (id, base version) — its content
-is represented by its id (`owner` = whose content is `engine_data.method`); the engine answers what the schedule
-says (ok / error).  Core Lean only.
+Abstractions: one engine id (lock and version are per engine id); a request is (id, base version) — its content is
+represented by its id (`owner` = whose content is `engine_data.method`; none = the initial method / the lines the
+engine sent after re-registering); the engine answers what the schedule says (ok / error); reply and commit are one
+step (a disconnect squeezed between the arrival of the answer and the commit — `engine_data is None` at the commit,
+the save is answered as accepted and nothing is stored — is not modelled).  Core Lean only.
 -/
 namespace OPM.SaveConc
 
@@ -33,14 +44,22 @@ deriving Repr, DecidableEq
 
 inductive Outcome where
   | accepted (v : Nat)   -- returned new version
-  | rejected             -- AggregatorCallerException "Method version mismatch"
+  | rejected             -- refused before anything was sent to the engine: version mismatch, or no such engine
   | failed               -- engine answered ErrorMessage / rpc raised
 deriving Repr, DecidableEq
 
+structure Cfg where
+  locked : Bool := true
+  resetOnRegister : Bool := false
+deriving Repr, DecidableEq
+
 structure State where
-  version : Nat                       -- engine_data.method.version
-  owner : Option Nat := none          -- id of the save whose content is engine_data.method (none = initial method)
+  version : Nat                       -- engine_data.method.version (of the current or, while away, the last engine data)
+  registered : Bool := true           -- engine_id ∈ _engine_data_map
+  reconnects : Nat := 0               -- number of re-registrations so far
+  owner : Option Nat := none          -- id of the save whose content is engine_data.method
   awaiting : List Req := []           -- requests suspended in the engine round trip
+  doomed : List Nat := []             -- ids of round trips that were in flight when the connection dropped
   waiters : List Req := []            -- requests blocked on the lock, FIFO
   accepted : List Req := []           -- accepted saves, in order of acceptance
   engineLog : List Nat := []          -- version of every MethodMsg sent to the engine, in order
@@ -50,6 +69,8 @@ deriving Repr, DecidableEq
 inductive Ev where
   | start (id base : Nat)
   | reply (id : Nat) (ok : Bool)
+  | disconnect
+  | register
 deriving Repr, DecidableEq
 
 def init (v0 : Nat) : State := { version := v0 }
@@ -57,36 +78,46 @@ def init (v0 : Nat) : State := { version := v0 }
 def known (s : State) (id : Nat) : Bool :=
   s.awaiting.any (·.id == id) || s.waiters.any (·.id == id) || s.results.any (·.1 == id)
 
-/-- The version check followed by sending the MethodMsg: rejected, or suspended in the round trip. -/
+/-- The version check followed by sending the MethodMsg: refused, or suspended in the round trip. -/
 def enter (s : State) (r : Req) : State :=
-  if r.base ≠ s.version then { s with results := s.results ++ [(r.id, .rejected)] }
+  if !s.registered || r.base ≠ s.version then { s with results := s.results ++ [(r.id, .rejected)] }
   else { s with awaiting := s.awaiting ++ [r], engineLog := s.engineLog ++ [r.base + 1] }
 
 /-- Hand the free lock to the waiters in FIFO order until one of them suspends in its round trip. -/
 def settle (s : State) : List Req → State
   | [] => { s with waiters := [] }
   | w :: ws =>
-    if w.base ≠ s.version then settle { s with results := s.results ++ [(w.id, .rejected)] } ws
+    if !s.registered || w.base ≠ s.version then settle { s with results := s.results ++ [(w.id, .rejected)] } ws
     else { enter s w with waiters := ws }
 
 /-- One atomic step; `none` = the event is not enabled in this state. -/
-def step (locked : Bool) (s : State) : Ev → Option State
+def step (c : Cfg) (s : State) : Ev → Option State
   | .start id base =>
     if known s id then none
-    else if locked && !s.awaiting.isEmpty then some { s with waiters := s.waiters ++ [⟨id, base⟩] }
+    else if !s.registered then some { s with results := s.results ++ [(id, .rejected)] }   -- route: 404
+    else if c.locked && !s.awaiting.isEmpty then some { s with waiters := s.waiters ++ [⟨id, base⟩] }
     else some (enter s ⟨id, base⟩)
   | .reply id ok =>
     match s.awaiting.find? (·.id == id) with
     | none => none
     | some r =>
-      let s₁ := { s with awaiting := s.awaiting.filter (·.id != id) }
-      let s₂ : State :=
-        if ok then { s₁ with version := r.base + 1, owner := some r.id, accepted := s₁.accepted ++ [r],
-                             results := s₁.results ++ [(r.id, .accepted (r.base + 1))] }
-        else { s₁ with results := s₁.results ++ [(r.id, .failed)] }
-      some (if locked then settle s₂ s₂.waiters else s₂)
+      if ok && (s.doomed.contains id || !s.registered) then none     -- a dropped round trip cannot succeed any more
+      else
+        let s₁ := { s with awaiting := s.awaiting.filter (·.id != id), doomed := s.doomed.filter (· != id) }
+        let s₂ : State :=
+          if ok then { s₁ with version := r.base + 1, owner := some r.id, accepted := s₁.accepted ++ [r],
+                               results := s₁.results ++ [(r.id, .accepted (r.base + 1))] }
+          else { s₁ with results := s₁.results ++ [(r.id, .failed)] }
+        some (if c.locked then settle s₂ s₂.waiters else s₂)
+  | .disconnect =>
+    if !s.registered then none
+    else some { s with registered := false, doomed := s.doomed ++ s.awaiting.map (·.id) }
+  | .register =>
+    if s.registered then none
+    else some { s with registered := true, reconnects := s.reconnects + 1, owner := none,
+                       version := if c.resetOnRegister then 0 else s.version + 1 }
 
 /-- Run a schedule; `none` if some event of it is not enabled where it occurs. -/
-def run (locked : Bool) (s : State) (evs : List Ev) : Option State := evs.foldlM (step locked) s
+def run (c : Cfg) (s : State) (evs : List Ev) : Option State := evs.foldlM (step c) s
 
 end OPM.SaveConc
